@@ -317,8 +317,17 @@ func (g *c02Gen) block(depth int) string {
 	}
 }
 
+// leading elements whose names begin like table-section tags (<tr.., <td.., <th.., <col.., <caption..)
+// or other context-sensitive tags: the file's first tag must not decide how the rest is parsed
+var c02Leading = []string{`<track src="a.vtt">`, `<tr-item>row</tr-item>`, `<td-cell>c</td-cell>`, `<th-label>h</th-label>`, `<col-box>x</col-box>`, `<thead-bar>b</thead-bar>`, `<caption-text>t</caption-text>`,
+	`<option-list>o</option-list>`, `<li-item>i</li-item>`, `<body-text>b</body-text>`, `<html-snippet>s</html-snippet>`, `<head-line>h</head-line>`, `<frameset-x>f</frameset-x>`, `<select-one>s</select-one>`, `<svg-icon>i</svg-icon>`, `<template-x>t</template-x>`}
+
 func (g *c02Gen) fragment() string {
 	var b strings.Builder
+	if g.r.Chance(1, 8) {
+		b.WriteString(core.Pick(g.r, c02Leading))
+		fmt.Fprintf(&b, "<table><tbody><tr><td>%s</td></tr></tbody></table><form%s><input name=\"q\"><p>%s</p></form>", g.text(), g.attrs("action"), g.inline(1))
+	}
 	for k := g.r.Intn(3); k >= 0; k-- {
 		b.WriteString(g.block(1 + g.r.Intn(3)))
 		if g.r.Chance(1, 3) {
